@@ -68,8 +68,8 @@ typedef Inst::SerialBuffer SBuf;
 // the buffer capacity suffices for every state count: one activity bit plus enough bits for every state index
 template <unsigned V> struct Bits { enum { value = 1 + Bits<(V >> 1)>::value }; };
 template <> struct Bits<0> { enum { value = 0 }; };
-static_assert(SBuf::BIT_CAPACITY >= 1 + Bits<NSTATES - 1>::value, "SERIAL_BITS >= 1 + bits(N-1)");
-static_assert(SBuf::BYTE_COUNT * 8 >= SBuf::BIT_CAPACITY, "BYTE_COUNT * 8 >= SERIAL_BITS");
+static const bool capacity_ok = SBuf::BIT_CAPACITY >= 1 + Bits<NSTATES - 1>::value;      // SERIAL_BITS >= 1 + bits(N-1)
+static const bool bytes_ok = SBuf::BYTE_COUNT * 8 >= SBuf::BIT_CAPACITY;                 // BYTE_COUNT * 8 >= SERIAL_BITS
 
 // drive an instance to an arbitrary reachable activity state: returns the active state or -1
 static int drive(Inst& m) {
@@ -90,6 +90,7 @@ static int activity(const Inst& m) {
 }
 
 extern "C" int harness(void) {
+  vassert(capacity_ok, 1220); vassert(bytes_ok, 1221);          // the buffer capacity suffices for this state count
   Inst saver, loader;
   const int sa = drive(saver);
   const int la = drive(loader);
